@@ -1825,6 +1825,19 @@ class CodeGenerator(NodeVisitor):
         self.enter_frame(block_frame)
         self.buffer(block_frame)
         self.blockvisit(node.body, block_frame)
+
+        # Like visit_Assign: ``{% set a.b %}...{% endset %}`` is only valid
+        # if ``a`` is a Namespace object. A block set has a single target.
+        if isinstance(node.target, nodes.NSRef):
+            ref = frame.symbols.ref(node.target.name)
+            self.writeline(f"if not isinstance({ref}, Namespace):")
+            self.indent()
+            self.writeline(
+                "raise TemplateRuntimeError"
+                '("cannot assign attribute on non-namespace object")'
+            )
+            self.outdent()
+
         self.newline(node)
         self.visit(node.target, frame)
         if node.filter is not None:
